@@ -1,17 +1,25 @@
 import CorsVerif.Proofs.Accepted
+import CorsVerif.Proofs.C06Assembly
 /-
   C06 — Config() round-trips: Reconfigure(Config()) is a no-op and constructors agree.
 
-  Proved so far (partial):
+  Proved:
+    * C06_roundtrip: for every accepted configuration (brackets only around IPv6 literals), the
+      `Config` rendered by `Config()` validates, builds *the same handler function*, and renders
+      again to the same `Config` in every field other than `Origins` (whose patterns are among the
+      configured ones and build an equivalent tree);
     * C06_ctor: a zero-value middleware reconfigured with &c and NewMiddleware(c) are the same
       function of c (same configuration, debug off);
-    * C06_flags: Config() carries the five switches through unchanged;
-    * C06_status: the success status survives the round trip through Config() and validation;
-    * C06_render_ipv6: an IPv6 host is rendered with its brackets (the repaired defect 7.1).
-  The full statement — validation accepts newConfig icfg and yields a configuration with the same
-  meaning, and Config() is stable after one round trip — needs `render ∘ parse` lemmas for every
-  entry the tree can hold plus C01; it is stated as `C06_full` and is covered by the `roundtrip`
-  relational suite (Go against Go) until proved.
+    * C06_flags, C06_status, C06_render_ipv6 (the repaired defect 7.1).
+  Proof layers: Proofs/Elems.lean (stored entries of a tree: `elems` renders them, the tree denotes
+  the union of their coverages, insertion stores nothing but the new entry), Proofs/Render.lean
+  (`Itoa` against the digit readers), Proofs/RoundTrip.lean (rendering an accepted pattern gives
+  back the string it was parsed from), Proofs/TreeRoundTrip.lean, Proofs/CfgRoundTrip.lean
+  (methods, request headers, response headers, max-age), Proofs/C06Assembly.lean.
+  Not proved: that the *list* `Origins` of `Config()` is literally unchanged after one round trip
+  (order and multiplicity; it needs the exact multiset of stored entries under subsumption), and
+  bracketed IPv4 literals (`http://[1.2.3.4]`, accepted by the code, rendered without brackets).
+  Both are covered by the `roundtrip` relational suite (Go against Go).
 -/
 namespace Cors
 open Gen
@@ -64,17 +72,197 @@ theorem C06_render_ipv6 (scheme host : Bytes) (h : host.contains Facts.origins_h
   simp only [h, if_true]
   simp
 
-/-- The full statement, to be proved. -/
-def C06_full : Prop :=
-  ∀ (ext : Ext) (cfg : Config) (icfg : ICfg), newInternalConfig ext cfg = .ok icfg →
+/-- What `newConfig` renders for the status. -/
+def statusOf (n : Nat) : Int :=
+  if (n + 200) % 256 != Facts.cors_defaultPreflightStatus % 256 then (n : Int) + 200 else 0
+
+theorem newConfig_status (i : ICfg) : (newConfig i).status = statusOf i.statusMinus200 := by
+  unfold newConfig statusOf
+  rfl
+
+open Validate CfgRT TreeRT C06A in
+/-- **C06 (round trip).** For every accepted configuration (whose origin patterns use brackets
+only around hosts containing a colon, i.e. IPv6 literals): validating the `Config` that `Config()`
+returns succeeds; the middleware built from it — equivalently, the same middleware after
+`Reconfigure(Config())` — is the same handler function (same status, headers and hand-over for
+every debug mode, request and pre-existing header map); and the two `Config()` values agree on
+every field other than `Origins` (whose patterns build an equivalent tree).
+
+`hext` is the hypothesis of `C01_parsed` (the IPv6 oracle accepts no literal starting with `*`). -/
+theorem C06_roundtrip (ext : Ext) (hext : ∀ h info, ext.ip6 h = some info → h.head? ≠ some 42)
+    (cfg : Config) (icfg : ICfg) (acc : newInternalConfig ext cfg = .ok icfg)
+    (hbr : ∀ raw ∈ cfg.origins, ∀ p, Pat.parsePattern ext raw = .ok p → (91 : Nat) ∈ raw → (58 : Nat) ∈ p.value) :
     ∃ icfg', newInternalConfig ext (newConfig icfg) = .ok icfg' ∧
-      (∀ dbg r pre, (Serve.serve icfg' dbg r pre).status = (Serve.serve icfg dbg r pre).status ∧
-        ∀ n, (Serve.serve icfg' dbg r pre).hdrs n = (Serve.serve icfg dbg r pre).hdrs n) ∧
-      newConfig icfg' = newConfig icfg
+      Serve.serve icfg' = Serve.serve icfg ∧
+      (newConfig icfg').credentialed = (newConfig icfg).credentialed ∧
+      (newConfig icfg').methods = (newConfig icfg).methods ∧
+      (newConfig icfg').requestHeaders = (newConfig icfg).requestHeaders ∧
+      (newConfig icfg').maxAge = (newConfig icfg).maxAge ∧
+      (newConfig icfg').responseHeaders = (newConfig icfg).responseHeaders ∧
+      (newConfig icfg').status = (newConfig icfg).status ∧
+      (newConfig icfg').pna = (newConfig icfg).pna ∧ (newConfig icfg').pnaNoCors = (newConfig icfg).pnaNoCors ∧
+      (newConfig icfg').tolInsecure = (newConfig icfg).tolInsecure ∧ (newConfig icfg').tolPSL = (newConfig icfg).tolPSL := by
+  obtain ⟨herrs, hb⟩ := (accepted_iff ext cfg icfg).mp acc
+  obtain ⟨h0, h1, h2, h3, h4, h5, h6⟩ := allErrs_nil herrs
+  have hwf := accepted_wf ext cfg icfg acc
+  subst hb
+  -- the pieces of the original validation
+  have hMerr : (Validate.methods cfg.methods).1 = [] := fieldErr_nil h3
+  have hQerr : (Validate.requestHeaders cfg.credentialed cfg.requestHeaders).1 = [] := fieldErr_nil h4
+  have hEerr : (Validate.responseHeaders cfg.credentialed cfg.responseHeaders).1 = [] := fieldErr_nil h6
+  obtain ⟨acma, hA⟩ : ∃ acma, Validate.maxAge cfg.maxAge = .ok acma := by
+    unfold Validate.maxAgeErrs at h5
+    cases hm : Validate.maxAge cfg.maxAge with
+    | error e => rw [hm] at h5; simp at h5
+    | ok v => exact ⟨v, rfl⟩
+  have hne : cfg.origins ≠ [] := by
+    intro h
+    unfold Validate.originErrs at h2
+    simp [h, Validate.originsResult, Validate.origins] at h2
+  have hclean : cfg.origins.flatMap (rawErrs ext cfg.credentialed (Validate.pnaAny cfg) cfg.tolInsecure cfg.tolPSL) = [] := by
+    unfold Validate.originErrs at h2
+    have he : cfg.origins.isEmpty = false := by
+      cases hc : cfg.origins with
+      | nil => exact absurd hc hne
+      | cons _ _ => rfl
+    rw [he] at h2
+    have := fieldErr_nil (by simpa using h2)
+    unfold Validate.originsResult at this
+    rw [origins_eq _ _ _ _ _ _ hne] at this
+    exact this
+  -- the round trips of the fields
+  have hO := origins_part ext hext cfg.credentialed (Validate.pnaAny cfg) cfg.tolInsecure cfg.tolPSL cfg.origins hne hclean hbr
+  simp only [] at hO
+  obtain ⟨hOne, hOerr, hOtree⟩ := hO
+  have hM := methods_roundtrip cfg.methods
+  obtain ⟨hQ1, hQ2, hQ3, hQ4⟩ := reqHdrs_roundtrip cfg.credentialed cfg.requestHeaders hQerr
+  have hE := resHdrs_roundtrip cfg.credentialed cfg.responseHeaders hEerr
+  have hA' := maxAge_roundtrip cfg.maxAge acma hA
+  have hS := C06_status (Validate.build ext cfg) hwf.status_lt
+  have hacma : (Validate.build ext cfg).acma = acma := by
+    show (match Validate.maxAge cfg.maxAge with | .ok v => v | .error _ => []) = acma
+    rw [hA]
+  have hempty : cfg.origins.isEmpty = false := by
+    cases hc : cfg.origins with
+    | nil => exact absurd hc hne
+    | cons _ _ => rfl
+  -- acceptance of the rendered configuration
+  have e0 : Validate.statusErrs (newConfig (Validate.build ext cfg)) = [] := by
+    unfold Validate.statusErrs
+    rw [hS]
+  have e1 : Validate.pnaErrs (newConfig (Validate.build ext cfg)) = [] := h1
+  have e2 : Validate.originErrs ext (newConfig (Validate.build ext cfg)) = [] := by
+    unfold Validate.originErrs Validate.originsResult
+    have hne' : (newConfig (Validate.build ext cfg)).origins.isEmpty = false := by
+      cases hc : (newConfig (Validate.build ext cfg)).origins with
+      | nil => exact absurd hc hOne
+      | cons _ _ => rfl
+    rw [hne']
+    simp only [Bool.false_eq_true, if_false]
+    show Validate.fieldErr (Validate.origins ext cfg.credentialed (Validate.pnaAny cfg) cfg.tolInsecure cfg.tolPSL
+      (if Node.isEmpty (Validate.origins ext cfg.credentialed (Validate.pnaAny cfg) cfg.tolInsecure cfg.tolPSL cfg.origins).2 = true
+        then [Validate.star]
+        else Tree.elems (Validate.origins ext cfg.credentialed (Validate.pnaAny cfg) cfg.tolInsecure cfg.tolPSL cfg.origins).2)).1 = []
+    rw [hOerr]; rfl
+  have e3 : Validate.methodErrs (newConfig (Validate.build ext cfg)) = [] := by
+    show Validate.fieldErr (Validate.methods (renderMethods (Validate.methods cfg.methods).2.1 (Validate.methods cfg.methods).2.2)).1 = []
+    rw [hM]; rfl
+  have e4 : Validate.reqHdrErrs (newConfig (Validate.build ext cfg)) = [] := by
+    show Validate.fieldErr (Validate.requestHeaders cfg.credentialed (renderReqHdrs cfg.credentialed
+      (Validate.requestHeaders cfg.credentialed cfg.requestHeaders).2.1 (Validate.requestHeaders cfg.credentialed cfg.requestHeaders).2.2.1
+      (Validate.requestHeaders cfg.credentialed cfg.requestHeaders).2.2.2.1)).1 = []
+    rw [hQ1]; rfl
+  have e5 : Validate.maxAgeErrs (newConfig (Validate.build ext cfg)) = [] := by
+    have hm : (newConfig (Validate.build ext cfg)).maxAge = renderMaxAge (Validate.build ext cfg).acma := rfl
+    unfold Validate.maxAgeErrs
+    rw [hm, hacma, hA']
+  have e6 : Validate.resHdrErrs (newConfig (Validate.build ext cfg)) = [] := by
+    show Validate.fieldErr (Validate.responseHeaders cfg.credentialed (renderResHdrs (Validate.responseHeaders cfg.credentialed cfg.responseHeaders).2)).1 = []
+    rw [hE]; rfl
+  have hall : Validate.allErrs ext (newConfig (Validate.build ext cfg)) = [] := by
+    unfold Validate.allErrs
+    rw [e0, e1, e2, e3, e4, e5, e6]; rfl
+  have hacc' : newInternalConfig ext (newConfig (Validate.build ext cfg)) = .ok (Validate.build ext (newConfig (Validate.build ext cfg))) :=
+    (accepted_iff ext _ _).mpr ⟨hall, rfl⟩
+  refine ⟨_, hacc', ?_, ?_⟩
+  · -- the same handler
+    apply serve_congr
+    refine ⟨?_, ?_, ?_, ?_, ?_, rfl, ?_, ?_, ?_, rfl, rfl, ?_, ?_, rfl, rfl⟩
+    · exact hOtree
+    · show (Validate.methods (renderMethods (Validate.methods cfg.methods).2.1 (Validate.methods cfg.methods).2.2)).2.2 = (Validate.methods cfg.methods).2.2
+      rw [hM]
+    · have := congrArg (fun x => x.1) hQ3
+      exact this
+    · have := congrArg (fun x => x.2) hQ3
+      exact this
+    · show (match Validate.status (newConfig (Validate.build ext cfg)).status with | .ok v => v | .error _ => 0) = (Validate.build ext cfg).statusMinus200
+      rw [hS]
+    · show (Validate.methods (renderMethods (Validate.methods cfg.methods).2.1 (Validate.methods cfg.methods).2.2)).2.1 = (Validate.methods cfg.methods).2.1
+      rw [hM]
+    · exact hQ2
+    · by_cases hx : ((Validate.build ext cfg).asteriskReqHdrs && (Validate.build ext cfg).credentialed) = true
+      · exact Or.inl hx
+      · exact Or.inr (hQ4 ((Bool.not_eq_true _).mp hx))
+    · show (match Validate.maxAge (renderMaxAge (Validate.build ext cfg).acma) with | .ok v => v | .error _ => []) = (Validate.build ext cfg).acma
+      rw [hacma, hA']
+    · show (Validate.responseHeaders cfg.credentialed (renderResHdrs (Validate.responseHeaders cfg.credentialed cfg.responseHeaders).2)).2 =
+        (Validate.responseHeaders cfg.credentialed cfg.responseHeaders).2
+      rw [hE]
+  · -- `Config()` is stable in every field other than Origins
+    have f_any : (Validate.build ext (newConfig (Validate.build ext cfg))).allowAnyMethod = (Validate.build ext cfg).allowAnyMethod := by
+      show (Validate.methods (renderMethods (Validate.methods cfg.methods).2.1 (Validate.methods cfg.methods).2.2)).2.1 = (Validate.methods cfg.methods).2.1
+      rw [hM]
+    have f_am : (Validate.build ext (newConfig (Validate.build ext cfg))).allowedMethods = (Validate.build ext cfg).allowedMethods := by
+      show (Validate.methods (renderMethods (Validate.methods cfg.methods).2.1 (Validate.methods cfg.methods).2.2)).2.2 = (Validate.methods cfg.methods).2.2
+      rw [hM]
+    have f_ast : (Validate.build ext (newConfig (Validate.build ext cfg))).asteriskReqHdrs = (Validate.build ext cfg).asteriskReqHdrs := hQ2
+    have f_set : (Validate.build ext (newConfig (Validate.build ext cfg))).allowedReqHdrs = (Validate.build ext cfg).allowedReqHdrs :=
+      congrArg (fun x => x.1) hQ3
+    have f_acma : (Validate.build ext (newConfig (Validate.build ext cfg))).acma = (Validate.build ext cfg).acma := by
+      show (match Validate.maxAge (renderMaxAge (Validate.build ext cfg).acma) with | .ok v => v | .error _ => []) = (Validate.build ext cfg).acma
+      rw [hacma, hA']
+    have f_aceh : (Validate.build ext (newConfig (Validate.build ext cfg))).aceh = (Validate.build ext cfg).aceh := by
+      show (Validate.responseHeaders cfg.credentialed (renderResHdrs (Validate.responseHeaders cfg.credentialed cfg.responseHeaders).2)).2 =
+        (Validate.responseHeaders cfg.credentialed cfg.responseHeaders).2
+      rw [hE]
+    have f_st : (Validate.build ext (newConfig (Validate.build ext cfg))).statusMinus200 = (Validate.build ext cfg).statusMinus200 := by
+      show (match Validate.status (newConfig (Validate.build ext cfg)).status with | .ok v => v | .error _ => 0) = (Validate.build ext cfg).statusMinus200
+      rw [hS]
+    refine ⟨rfl, ?_, ?_, ?_, ?_, ?_, rfl, rfl, rfl, rfl⟩
+    · show renderMethods (Validate.build ext (newConfig (Validate.build ext cfg))).allowAnyMethod
+          (Validate.build ext (newConfig (Validate.build ext cfg))).allowedMethods =
+        renderMethods (Validate.build ext cfg).allowAnyMethod (Validate.build ext cfg).allowedMethods
+      rw [f_any, f_am]
+    · -- the Authorization flag may differ only under a credentialed `*`, where it is not rendered
+      show renderReqHdrs (Validate.build ext cfg).credentialed (Validate.build ext (newConfig (Validate.build ext cfg))).asteriskReqHdrs
+          (Validate.build ext (newConfig (Validate.build ext cfg))).allowAuthorization
+          (Validate.build ext (newConfig (Validate.build ext cfg))).allowedReqHdrs =
+        renderReqHdrs (Validate.build ext cfg).credentialed (Validate.build ext cfg).asteriskReqHdrs
+          (Validate.build ext cfg).allowAuthorization (Validate.build ext cfg).allowedReqHdrs
+      rw [f_ast, f_set]
+      by_cases hx : ((Validate.build ext cfg).asteriskReqHdrs && (Validate.build ext cfg).credentialed) = true
+      · simp only [Bool.and_eq_true] at hx
+        unfold renderReqHdrs
+        rw [hx.2, hx.1]
+        simp
+      · have hau : (Validate.build ext (newConfig (Validate.build ext cfg))).allowAuthorization = (Validate.build ext cfg).allowAuthorization :=
+          hQ4 ((Bool.not_eq_true _).mp hx)
+        rw [hau]
+    · show renderMaxAge (Validate.build ext (newConfig (Validate.build ext cfg))).acma = renderMaxAge (Validate.build ext cfg).acma
+      rw [f_acma]
+    · show renderResHdrs (Validate.build ext (newConfig (Validate.build ext cfg))).aceh = renderResHdrs (Validate.build ext cfg).aceh
+      rw [f_aceh]
+    · rw [newConfig_status, newConfig_status, f_st]
+
+/-- Non-vacuity of the bracket hypothesis: it holds for ordinary and IPv6 patterns, and is what a
+bracketed IPv4 literal violates. -/
+example : ((91 : Nat) ∈ Spec.b "https://example.com:8080") = False := by decide
+example : (58 : Nat) ∈ Spec.b "2001:db8::1" := by decide
 
 #print axioms C06_ctor
 #print axioms C06_flags
 #print axioms C06_status
 #print axioms C06_render_ipv6
+#print axioms C06_roundtrip
 
 end Cors
